@@ -602,6 +602,248 @@ pub fn gen_corpus(rng: &mut Rng, case: usize) -> Block {
     b.finish()
 }
 
+
+/// Family 7: EIP-7702 delegated accounts whose delegate code moves value out of them (CALL value,
+/// CREATE endowment, SELFDESTRUCT) or creates contracts, interleaved with the accounts' own
+/// transactions — the shapes the delegated-safety policies (C12, C13) are about. Balances are
+/// chosen around the sum of the maximum costs of an account's own transactions, and the debit
+/// amounts around the slack that leaves exactly that sum.
+pub fn gen_delegated(rng: &mut Rng, spec: SpecId, n_txs: usize) -> Block {
+    let n_eoas = 3;
+    let mut b = Builder::new(rng, spec, n_eoas);
+    b.setup_coinbase(rng);
+    let prague = spec.is_enabled_in(SpecId::PRAGUE);
+    let r = contract(60); // receiver of moved value (absent before the block)
+    let cd0 = || Expr::Cd(0);
+    let payer = contract(61);
+    b.db.insert_contract(
+        payer,
+        asm::assemble(&[
+            Stmt::Call { kind: CallKind::Call, to: addr(r), value: cd0(), arg: None, result_slot: Some(1), gas: None },
+            Stmt::Sstore(c(0), add(sload(0), c(1))),
+        ]),
+        U256::from(1_000_000u64),
+        &[],
+    );
+    // batch-wallet shape: a large payment, then a small call to a router that refunds more than
+    // the small amount (several surviving debits of one delegated account, then a credit)
+    let refunder = contract(58);
+    b.db.insert_contract(refunder, asm::assemble(&[Stmt::SelfDestruct(addr(contract(70)))]), U256::from(40u64), &[]);
+    let payer_refund = contract(57);
+    b.db.insert_contract(
+        payer_refund,
+        asm::assemble(&[
+            Stmt::Call { kind: CallKind::Call, to: addr(r), value: cd0(), arg: None, result_slot: Some(1), gas: None },
+            Stmt::Call { kind: CallKind::Call, to: addr(refunder), value: c(1), arg: None, result_slot: Some(2), gas: None },
+        ]),
+        U256::from(1_000_000u64),
+        &[],
+    );
+    let runtime = asm::assemble(&[Stmt::Sstore(c(0), add(sload(0), c(1)))]);
+    let child_init = asm::initcode(&[Stmt::Sstore(c(0), c(7))], &runtime);
+    let creator = contract(62);
+    b.db.insert_contract(
+        creator,
+        asm::assemble(&[
+            Stmt::Create { value: cd0(), initcode: child_init.clone(), salt: None, result_slot: Some(2) },
+            Stmt::Sstore(c(0), add(sload(0), c(1))),
+        ]),
+        U256::from(1_000_000u64),
+        &[],
+    );
+    let creator2 = contract(63);
+    b.db.insert_contract(
+        creator2,
+        asm::assemble(&[
+            Stmt::Create { value: cd0(), initcode: child_init.clone(), salt: Some(3), result_slot: Some(2) },
+            Stmt::Sstore(c(0), add(sload(0), c(1))),
+        ]),
+        U256::from(1_000_000u64),
+        &[],
+    );
+    let bomber = contract(64);
+    b.db.insert_contract(bomber, asm::assemble(&[Stmt::SelfDestruct(addr(r))]), U256::from(1_000u64), &[]);
+    // delegated accounts
+    let da = |i: usize| contract(70 + i);
+    let dcaller = contract(66);
+    let targets = [if rng.chance(1, 2) { payer } else { payer_refund }, if rng.chance(1, 2) { creator } else { creator2 }, pick(rng, &[bomber, payer, creator, dcaller, dcaller])];
+    // nested: gives A0 some value and asks it to pass it on (credit before debit)
+    let nested = contract(65);
+    b.db.insert_contract(
+        nested,
+        asm::assemble(&[Stmt::Call { kind: CallKind::Call, to: addr(da(0)), value: cd0(), arg: Some(cd0()), result_slot: Some(0), gas: None }]),
+        U256::from(10_000_000u64),
+        &[],
+    );
+    // delegatecall into the creator: the create runs in the caller's own context
+    b.db.insert_contract(
+        dcaller,
+        asm::assemble(&[Stmt::Call { kind: CallKind::DelegateCall, to: addr(creator), value: c(0), arg: Some(c(0)), result_slot: Some(3), gas: None }]),
+        U256::from(1_000u64),
+        &[],
+    );
+    // an ordinary contract that DELEGATECALLs a delegated account: the delegate's code (a creator)
+    // runs in the ordinary contract's own context, where creating is allowed
+    let xdc = contract(59);
+    b.db.insert_contract(
+        xdc,
+        asm::assemble(&[Stmt::Call { kind: CallKind::DelegateCall, to: addr(da(1)), value: c(0), arg: Some(c(0)), result_slot: Some(3), gas: None }]),
+        U256::from(1_000u64),
+        &[],
+    );
+    // static call into a delegated account
+    let scaller = contract(67);
+    b.db.insert_contract(
+        scaller,
+        asm::assemble(&[Stmt::Call { kind: CallKind::StaticCall, to: addr(da(1)), value: c(0), arg: Some(c(0)), result_slot: Some(0), gas: Some(200_000) }]),
+        U256::ZERO,
+        &[],
+    );
+    // inner frame that debits A0 and reverts; the outer frame survives
+    let reverter = contract(68);
+    b.db.insert_contract(
+        reverter,
+        asm::assemble(&[
+            Stmt::Call { kind: CallKind::Call, to: addr(da(0)), value: c(0), arg: Some(cd0()), result_slot: None, gas: None },
+            Stmt::Revert,
+        ]),
+        U256::ZERO,
+        &[],
+    );
+    let catcher = contract(69);
+    b.db.insert_contract(
+        catcher,
+        asm::assemble(&[
+            Stmt::Call { kind: CallKind::Call, to: addr(reverter), value: c(0), arg: Some(cd0()), result_slot: Some(0), gas: None },
+            Stmt::Sstore(c(1), add(sload(1), c(1))),
+        ]),
+        U256::ZERO,
+        &[],
+    );
+    for i in 0..3 {
+        let nonce = rng.below(3) as u64;
+        b.db.insert_delegated(da(i), targets[i], U256::ZERO, nonce);
+        b.nonces.insert(da(i), nonce);
+    }
+    // placeholders: (tx index, delegated account whose balance scales the amount)
+    let mut amounts: Vec<(usize, usize)> = Vec::new();
+    let mut auth_nonce = *b.nonces.get(&da(2)).unwrap();
+    for _ in 0..n_txs {
+        let from = eoa(rng.below(n_eoas));
+        let k = rng.below(3);
+        match rng.below(14) {
+            0..=3 => {
+                let i = b.call(rng, from, da(k), &[0], "sponsor-calls-delegated");
+                if rng.chance(1, 4) {
+                    b.txs[i].value = U256::from(1 + rng.below(50_000));
+                    b.desc[i].push_str(" +value");
+                }
+                amounts.push((i, k));
+            }
+            4 | 5 => {
+                // the delegated account's own plain transaction (k < 2: account 2 never sends)
+                let k = rng.below(2);
+                let to = eoa(rng.below(n_eoas));
+                let v = rng.below(5_000) as u128;
+                let i = b.transfer(rng, da(k), to, v);
+                b.txs[i].gas_limit = 30_000 + rng.below(200_000) as u64;
+                b.desc[i] = format!("own-tx of delegated {k}: transfer {v}");
+            }
+            6 => {
+                // own transaction that runs the account's delegated code
+                let k = rng.below(2);
+                let i = b.call(rng, da(k), da(k), &[0], "own-tx-runs-delegated-code");
+                amounts.push((i, k));
+            }
+            7 => {
+                let i = b.call(rng, from, nested, &[0], "nested-credit-then-debit");
+                amounts.push((i, 0));
+            }
+            8 => {
+                let t = pick(rng, &[payer, creator, creator2, bomber]);
+                let w = rng.below(100) as u64;
+                b.call(rng, from, t, &[w], "ordinary-context");
+            }
+            9 => {
+                let t = pick(rng, &[dcaller, scaller, xdc, xdc]);
+                b.call(rng, from, t, &[], "delegatecall-or-static");
+            }
+            10 => {
+                let i = b.call(rng, from, catcher, &[0], "inner-revert-of-delegated-debit");
+                amounts.push((i, 0));
+            }
+            11 | 12 => {
+                let v = 1 + rng.below(100_000) as u128;
+                b.transfer(rng, from, da(k), v);
+            }
+            _ if prague => {
+                let target = pick(rng, &[payer, creator, Address::ZERO, bomber]);
+                let n = if rng.chance(5, 6) { auth_nonce } else { auth_nonce + 2 };
+                if n == auth_nonce {
+                    auth_nonce += 1;
+                }
+                let i = b.tx(rng, from, TxKind::Call(da(2)), U256::ZERO, vec![0u8; 32], 500_000, format!("7702 re-point delegated 2 -> {target:#x}"));
+                b.txs[i].tx_type = 4;
+                b.txs[i].authorization_list = vec![auth(da(2), target, n)];
+                if b.txs[i].gas_priority_fee.is_none() {
+                    b.txs[i].gas_priority_fee = Some(0);
+                }
+                if b.txs[i].gas_price < b.basefee as u128 {
+                    b.txs[i].gas_price = b.basefee as u128;
+                }
+                amounts.push((i, 2));
+            }
+            _ => {
+                let to = eoa(rng.below(n_eoas));
+                b.transfer(rng, from, to, 1);
+            }
+        }
+    }
+    // balances around the sum of the accounts' own maximum costs
+    let mut balance = [0u128; 3];
+    for k in 0..3 {
+        let own: u128 = b
+            .txs
+            .iter()
+            .filter(|t| t.caller == da(k))
+            .map(|t| revm::context_interface::Transaction::max_balance_spending(t).map_or(u128::MAX / 4, |c| c.to::<u128>()))
+            .sum();
+        balance[k] = match rng.below(6) {
+            0 => own,
+            1 => own + 1 + rng.below(1000) as u128,
+            2 => own.saturating_sub(1 + rng.below(1000) as u128),
+            3 => own * 2 + 50_000,
+            4 => own + 1_000_000,
+            _ => 10_000_000 + rng.below(1_000_000) as u128,
+        };
+        b.db.accounts.get_mut(&da(k)).unwrap().info.balance = U256::from(balance[k]);
+        let slack = balance[k].saturating_sub(own);
+        for (i, kk) in &amounts {
+            if *kk != k {
+                continue;
+            }
+            let v: u128 = match rng.below(7) {
+                0 => 0,
+                1 => 1,
+                2 => slack,
+                3 => slack + 1,
+                4 => slack.saturating_sub(1),
+                5 => balance[k] / 2,
+                _ => balance[k],
+            };
+            b.txs[*i].data = Bytes::from(U256::from(v).to_be_bytes::<32>().to_vec());
+            b.desc[*i].push_str(&format!(" amount={v} (own-cost-sum {own}, balance {})", balance[k]));
+        }
+    }
+    b.safety = match rng.below(4) {
+        0 => DelegatedSafetyConfig::disabled(),
+        1 => DelegatedSafetyConfig::create_only(),
+        2 => DelegatedSafetyConfig::reserve_only(),
+        _ => DelegatedSafetyConfig::enabled(),
+    };
+    b.finish()
+}
+
 pub fn gen_family(rng: &mut Rng, family: &str, n_txs: usize) -> Block {
     match family {
         "corpus" => gen_corpus(rng, n_txs),
@@ -627,6 +869,10 @@ pub fn gen_family(rng: &mut Rng, family: &str, n_txs: usize) -> Block {
                 SpecId::OSAKA,
             ]);
             gen_lifecycle(rng, spec, n_txs)
+        }
+        "delegated" => {
+            let spec = pick(rng, &[SpecId::PRAGUE, SpecId::PRAGUE, SpecId::OSAKA, SpecId::OSAKA, SpecId::CANCUN, SpecId::SHANGHAI]);
+            gen_delegated(rng, spec, n_txs)
         }
         "code" => {
             let spec = if rng.chance(1, 4) {
